@@ -6,6 +6,8 @@
 (*   [op |-> "call",   f, args, before, after, res, exempt]                 *)
 (*   [op |-> "mutate", args = <<key>>, res = new token]                     *)
 (*   [op |-> "batch",  f, single, batched]   item-wise results, two lists   *)
+(*   [op |-> "scribble", f = position of the call whose result was written  *)
+(*                       into by the caller]                                 *)
 (* f is the catalogue index of the entry point, args are store keys,        *)
 (* before/after/res are first-seen content tokens given by the recorder.    *)
 (***************************************************************************)
@@ -48,7 +50,11 @@ TraceBatch ==      \* BatchItemwise: item i of the batched result is what the si
     /\ Ev.single = Ev.batched
     /\ UNCHANGED <<store, memo, tid>> /\ l' = l + 1
 
-TraceNext == TraceCall \/ TraceMutate \/ TraceBatch
+TraceScribble ==   \* the caller wrote into an object it had been given: the model's state does not move
+    /\ Has("scribble")
+    /\ UNCHANGED <<store, memo, tid>> /\ l' = l + 1
+
+TraceNext == TraceCall \/ TraceMutate \/ TraceBatch \/ TraceScribble
 TraceSpec == TraceInit /\ [][TraceNext]_tvars
 
 Functional == \A m1, m2 \in memo : m1[1] = m2[1] => m1[2] = m2[2]
